@@ -542,7 +542,8 @@ def wrapped_program(rng, lines):
 
 
 def repeat_program(rng, lines):
-    """(source with .repeat, source with the body once, count): the body sits between zstart: and zafter:"""
+    """dict: w = source with .repeat, r = the body once, a = what precedes the body, b = that plus the
+    body, n = count.  The body sits between zstart: and zafter:; a and b give its byte addresses."""
     head = lines[:2]
     body = [l for l in lines[2:] if not l.strip().endswith(":")]
     k = rng.randrange(0, max(1, len(body)))
@@ -551,4 +552,7 @@ def repeat_program(rng, lines):
     pre, rep, post = body[:k], body[k:j], body[j:]
     w = head + pre + ["zstart:", ".repeat %d" % n] + rep + [".endr", "zafter:"] + post
     r = head + pre + ["zstart:"] + rep + ["zafter:"] + post
-    return "\n".join(w) + "\n", "\n".join(r) + "\n", n
+    org = int(head[1].split()[1], 16)
+    j_ = "\n".join
+    return {"w": j_(w) + "\n", "r": j_(r) + "\n", "a": j_(head + pre) + "\n", "b": j_(head + pre + rep) + "\n",
+            "n": n, "org": org}
